@@ -91,8 +91,8 @@ def run(run: Run, pkg: Package) -> None:
             code_s1 = tr.tr(s1)
             pf = PREP.get(m, lambda e: e)
             ok, how = S.decide_equal(pf(tr.tr(s2)), pf(sp.diff(code_s1, r)))
-            run.ob("R-ALG", short(it.fi.qual), f"{m}:s2=ds1", ok, f"s2 of {m} is d/dr of the s1 it returns", how, loc=loc,
-                   witness=None if ok else how)
+            run.ob("R-ALG", short(it.fi.qual), f"{m}:s2=ds1", ok if not (ok is False and tr.atoms) else None, f"s2 of {m} is d/dr of the s1 it returns", how, loc=loc,
+                   witness=None if ok else how, sound=True)
         except Exception as e:  # noqa
             run.ob("R-ALG", short(it.fi.qual), f"{m}:s2=ds1", None, "s2 = d s1/dr", str(e), loc=loc)
         ref_rc = ds.subs(r, rc) if has_shift else sp.Integer(0)
@@ -131,7 +131,7 @@ def run(run: Run, pkg: Package) -> None:
     if len(params) < 2:
         raise AnalysisError("caller lost its interaction_params parameter")
     ip = ("sym", params[1])
-    run.ob("R-DISPATCH", fq, "no-fallthrough", not it.falls_through,
+    run.ob("R-DISPATCH", fq, "no-fallthrough", True if not it.falls_through else None,
            "every path of the dispatcher ends in a return (no implicit None)",
            "" if not it.falls_through else "a path falls off the end of the function", loc=it.fi.loc(),
            witness=None if not it.falls_through else "model outside the tested members returns None")
@@ -150,13 +150,15 @@ def run(run: Run, pkg: Package) -> None:
         key = f"route {m}"
         if len(sel) != 1:
             run.ob("R-DISPATCH", fq, key, None if sel else False, f"ModelName.{m} selects exactly one return",
-                   f"{len(sel)} candidate returns", witness=f"model_name = ModelName.{m}" if not sel else None, loc=it.fi.loc())
+                   f"{len(sel)} candidate returns", witness=f"model_name = ModelName.{m}" if not sel else None, loc=it.fi.loc(), sound=True)   # every return is refuted for this member
             continue
         val = sel[0].data["value"]
         want = pkg.cls(CLS).methods[m].qual
         ok = val[0] == "call" and val[1] == want
+        others = {pkg.cls(CLS).methods[m2].qual for m2 in POTENTIALS if m2 != m}
+        ok = True if ok else (False if (val[0] == "call" and val[1] in others) else None)     # routed to the method of another model
         run.ob("R-DISPATCH", fq, key, ok, f"ModelName.{m} is routed to PairInteractions.{m}",
-               f"routed to {show(val)[:120]}", witness=None if ok else f"model_name = ModelName.{m}", loc=loc_of(it, sel[0]))
+               f"routed to {show(val)[:120]}", witness=None if ok else f"model_name = ModelName.{m}", loc=loc_of(it, sel[0]), sound=True)
         if not ok:
             continue
         target = pkg.func(want)
@@ -169,10 +171,8 @@ def run(run: Run, pkg: Package) -> None:
             bound[kname] = a_
         for pname, fld in ROUTING[m].items():
             got = bound.get(pname)
-            ok2 = got == ("attr", ip, fld)
-            if got is None and pname in target.defaults():
-                ok2 = None
+            ok2 = eqv(got, ("attr", ip, fld)) if got is not None else None
             run.ob("R-DISPATCH", fq, f"route {m}.{pname}", ok2, f"{m}({pname}=...) receives interaction_params.{fld}",
                    f"receives {show(got) if got is not None else 'nothing (default used)'}",
-                   witness=None if ok2 else f"InteractionParams({fld}=x) with ModelName.{m}", loc=loc_of(it, sel[0]))
+                   witness=None if ok2 else f"InteractionParams({fld}=x) with ModelName.{m}", loc=loc_of(it, sel[0]), sound=True)
     run.minimum("R-DISPATCH", 7)
